@@ -106,6 +106,7 @@ def run(rep, tier, seed):
                      'the transforms, the sponge and the Merkle builders with exact-size buffers')
     run_rules(rep, ('alloc', 'shift', 'align'))
     rules.rule_shift(rep, r'^(PoseidonGoldilocks::|Goldilocks::parcpy|Goldilocks::parSetZero|Goldilocks::exp|Goldilocks3::)', floor=0, label='hash / helper units')
+    rules.rule_narrow(rep)
     nw = wrapper_safety(rep, 'avx2') + wrapper_safety(rep, 'avx512')
     rep.floor('routines checked for footprint-in-extent', nw, 360)
     nl = lifetimes(rep, tier)
